@@ -5,7 +5,7 @@ from . import common, parsecheck
 
 PROFILE = dict(p_bad_default=0.0, p_plain_mapkey=1.0, p_required=0.05, p_init=0.0, p_hidden=0.08, p_noini=0.05, p_ininame=0.2, p_commands=0.45, p_group=0.4, p_default=0.3,
                p_bad_value=0.0, p_ev_unknown=0.0, p_ev_garbage=0.0, p_mutate_argv=0.0, p_ev_opt=0.85, p_ev_cmd=0.1, p_ev_plain=0.03, p_ev_term=0.0,
-               n_events=(2, 9), p_base=0.25, p_env=0.0, p_choice=0.0, p_positional=0.1, p_optional=0.08, p_help=0.0, p_print=0.0,
+               n_events=(2, 9), p_base=0.25, p_env=0.0, p_choice=0.06, p_positional=0.1, p_optional=0.08, p_help=0.0, p_print=0.0,
                p_handler=0.0, p_cmdhandler=0.0, p_exec=0.3, p_exec_err=0.0, p_quoted=0.05, p_mb_short=0.1, p_nil_ptr=0.3, p_long_value=0.04, p_addoption=0.1, p_dupfield=0.15)
 
 INIOPTS = [0, 2, 4, 6, 8, 10, 12, 14]
@@ -111,9 +111,9 @@ def roundtrip_stream(rep, rng, n):
                         break
         if what:
             kf = None
-            for pred, txt in KNOWN:
-                if pred(sc, g1, g2, what):
-                    kf = txt
+            for pred, match in KNOWN:
+                if _finding_text(match) and pred(sc, g1, g2, what):
+                    kf = _finding_text(match)       # only findings still listed in KNOWN_FINDINGS.json are recognised
                     break
             if kf:
                 rep.known_finding(kf)
@@ -127,7 +127,69 @@ def roundtrip_stream(rep, rng, n):
     return True
 
 
-KNOWN = []
+def _leaf_specs(sc):
+    """fid -> (type, tag) of every leaf of the declaration"""
+    out = {}
+    def walk(fs):
+        for f in fs:
+            if "struct" in f: walk(f["struct"]["fields"])
+            else: out[f["fid"]] = (f["type"], f["tag"])
+    for fl in scen.all_field_lists(sc): walk(fl)
+    return out
+
+
+def known_choice_canonical_text(sc, g1, g2, what):
+    """reading back fails with ErrInvalidChoice for a text X which the writer produced for an option that declares choices,
+    X not being one of them (canonical rendering of a converted value, or the zero value of an option never given)"""
+    import re
+    from .. import units
+    w = what.encode("latin-1", "replace") if isinstance(what, str) else what
+    # the message is the repr of a tuple holding the bytes of the error text
+    m = re.search(r"Invalid value `(.*?)' for option `(.*?)'\. Allowed values are", what, re.S)
+    if not m:
+        return False
+    try:
+        msg = eval(what[what.index("("):])[2]
+    except Exception:
+        return False
+    mm = re.search(rb"Invalid value `(.*)' for option `(.*?)'\. Allowed values are", msg, re.S)
+    if not mm:
+        return False
+    x, optstr = mm.group(1), mm.group(2)
+    for ty, tag in _leaf_specs(sc).values():
+        if b'choice:"' not in tag:
+            continue
+        lm = re.search(rb'long:"([^"\\]*)"', tag)
+        sm = re.search(rb'short:"([^"\\]*)"', tag)
+        named = (lm and optstr.endswith(lm.group(1))) or (sm and (b"-" + sm.group(1)) in optstr)
+        if named and (b"choice:" + units.go_quote(x)) not in tag:
+            return True
+    return False
+
+
+def known_map_key_line_break(sc, g1, g2, what):
+    """a map option holds a key with a line break (visible in the first run's values: 0a / 0d inside a map key)"""
+    vals = g1["ops"][0].get("vals", "")
+    for part in vals.split(";"):
+        _, _, v = part.partition(":")
+        if v.startswith("m{"):
+            for kv in v[2:-1].split(","):
+                k = kv.partition(">")[0]
+                if k.startswith("s"):
+                    kb = scen.unhex(k[1:])
+                    if b"\n" in kb or b"\r" in kb:
+                        return True
+    return False
+
+
+def _finding_text(match):
+    for f in lib.known_findings("C12"):
+        if f.get("match") == match:
+            return f["text"]
+    return None
+
+
+KNOWN = [(known_choice_canonical_text, "choice-canonical-text"), (known_map_key_line_break, "map-key-line-break")]
 
 
 def run(rep, tier, rng, replay=None):
